@@ -7,4 +7,4 @@ From Coq Require Import ZArith.
 From KV Require Import Model.Sasl.
 Extraction Language OCaml.
 (* Z.to_N only so that the N datatype, which ocaml/kvio.ml.in mentions, is part of the module *)
-Extraction "c18_model.ml" run_case run_raw_case handed_out trace Z.to_N.
+Extraction "c18_model.ml" run_case run_raw_case fault_of_response handed_out trace Z.to_N.
